@@ -185,6 +185,9 @@ def norm(n):
     r = _norm_cache.get(n)
     if r is None:
         r = strip_generics(n).replace("'_ ", '').replace('&mut ', '&')
+        r = re.sub(r'^\w+::(core|std|alloc)::', r'\1::', r)                 # `<crate>::core::..` re-export paths
+        r = re.sub(r'<impl \[[^\]]*\]>', '<impl [T]>', r)                  # inherent slice methods
+        r = re.sub(r'^(core|alloc)::', 'std::', r) if r.startswith(('core::slice', 'core::str', 'alloc::')) and False else r
         _norm_cache[n] = r
     return r
 
@@ -385,9 +388,15 @@ class Interp:
                     f = self.prog.get(cand)
                     self.const_cache[cand] = self.run(f, [])
                 return dup(self.const_cache[cand])
-        mm = re.match(r'^\{alloc\d+.*\}$', s)
-        if mm: raise Unsupported('allocation constant ' + s)
-        return FnItem(s)   # zero-sized fn item / unit struct constant
+        ns = strip_generics(s)
+        if ns.startswith('std::marker::PhantomData'): return UNIT()
+        ev = self.variant_of(ns, fn.crate if fn is not None else '')
+        if ev: return Enum(ev[0], ev[1], [])
+        b = BUILTIN_VARIANTS.get(ns)
+        if b: return Enum(b[0], b[1], [])
+        full = self.resolve_adt_name(ns, fn.crate if fn is not None else '')
+        if full is not None: return Agg(full, [])
+        raise Unsupported('unknown constant ' + s)
 
     # ----- execution -----
     def run(self, fn, args):
@@ -484,14 +493,16 @@ class Interp:
         c = Call(inst, key, norm(defn), dest_ty, fn, callee_text)
         if self.trace is not None: self.trace.append('  ' * self.depth + key)
         st = self.stubs.get(key)
-        if st is not None:
-            self.models_used.add('stub:' + key); return st(self, args, c)
-        h = MODELS.get(key)
-        if h is not None:
-            self.models_used.add(key); return h(self, args, c)
+        h = st if st is not None else MODELS.get(key)
         dm = DEF_MODELS.get(c.defn)
-        if dm is not None and c.defn in FORCE_DEF:
-            self.models_used.add(c.defn); return dm(self, args, c)
+        if h is None and dm is not None and c.defn in FORCE_DEF: h = dm
+        if h is not None:
+            self.models_used.add(('stub:' if st is not None else '') + (key if h is not dm else c.defn))
+            try:
+                return h(self, args, c)
+            except PanicPath as p:
+                if not p.where: p.where = '%s -> %s' % (fn.name if fn is not None else '?', key)
+                raise
         body = None
         for cand in (target, key, strip_generics(inst)):
             if cand and self.prog.has(cand):
